@@ -35,6 +35,8 @@ def obligations(tier):
                             defines=['NOPS=%d' % length, 'SEQ_OPS={%s}' % ','.join(str(x) for x in seq)],
                             bound='operation sequence %s of length %d from the empty container, symbolic values (%s)' % (sid, length, what),
                             timeout=600))
+    obs.append(dict(id='seq.svec_move_inline', entry='h_svec_ops', cls='B', serves=['C16'], unwind=16, leak=True, function='svec_ctor_move', kf='svec-move-relocates-inline',
+                    defines=['NOPS=2', 'SEQ_OPS={0,1}', 'SVEC_MOVE_INLINE'], bound='two pushes (inline storage), then move construction', timeout=600))
     obs.append(dict(id='seq.dyn_ops', entry='h_dyn_ops', cls='B', serves=['C13', 'C16'], unwind=8, leak=True, function='dyn_ctor_copy',
                     bound='dyn_array of every size <= 4: construct, copy, move, assign, destroy', timeout=600))
     return obs
